@@ -90,8 +90,19 @@ def run(ctx):
         reps = ctx.pick(1, 3)
         for i in order:
             a = reqs_[i]
-            for k in range(reps):
-                value = dispatch.concretise(a["req"], v1, ctx.rng)
+            # a request with at most one deviation is concretised with every member of every class it
+            # touches (the deviation is not masked by another one); the others with seeded random members
+            sweep = dispatch.Sweep(ctx.rng) if a["muts"] <= 1 else None
+            k = -1
+            while True:
+                k += 1
+                if sweep is not None:
+                    sweep.j = k
+                    if k >= max(reps, min(sweep.longest, 24)):
+                        break
+                elif k >= reps:
+                    break
+                value = dispatch.concretise(a["req"], v1, sweep if sweep is not None else ctx.rng)
                 pend = (len(cells) % 4 == 3)
                 code, has, contacted, shut = bench.run(value, pending=pend)
                 observed = 0 if (contacted or code >= 0) else code
